@@ -263,7 +263,7 @@ def drive(case):
         warnings.simplefilter("ignore")
         while not impl.is_finished():
             guard += 1
-            if guard > 200000:
+            if guard > 30000:
                 out["halt"] = "guard"
                 break
             before = snap(impl, M)
@@ -303,8 +303,22 @@ def drive(case):
     return out
 
 
+VARIANT = "0"   # "0" = code as found (previous_energy survives a completed step), "1" = repaired; set by probe_variant()
+
+
 def cfg_words(n, steps, tol, ms, times):
-    return [str(n), str(steps), f2b(tol), str(ms), lst(f2b(t) for t in times)]
+    return [VARIANT, str(n), str(steps), f2b(tol), str(ms), lst(f2b(t) for t in times)]
+
+
+def probe_variant():
+    """Which model variant does the code match? One converged `sweep_complete` of the real method on the
+    stand-in object: is `previous_energy` cleared afterwards?"""
+    global VARIANT
+    st = dict(n=2, steps=2, times=[0.0, 5.0, 10.0], tol=1.0, ms=5, dir="R", idx=0, left=1, right=1, centre=1,
+              prev=0.5, cur=None, sc=1, ts=0, curT=0.0, tgtT=5.0, e=0.5)
+    io = run_fake(st).split(" ")
+    VARIANT = "1" if (io[0] == "ok" and io[1].endswith("s1,d0") and io[7] == "-") else "0"
+    return VARIANT
 
 
 def run_line(case, out):
@@ -628,6 +642,8 @@ def check(rep: Report, tier: str, seed: int) -> None:
     compat.install()
     import emu_mps.mps_backend_impl  # noqa: F401 — pay the torch/pulser import before the budget clock starts
     rep.extra["t_import"] = round(time.time() - tl, 1)
+    rep.extra["model_variant"] = {"0": "asFound (previous_energy kept across steps)",
+                                  "1": "repaired (previous_energy cleared on convergence)"}[probe_variant()]
     t0 = time.time()
     budget = 25.0 if quick else 600.0
     n_phys, n_tape = (14, 40) if quick else (150, 400)
@@ -797,6 +813,7 @@ def replay(rep: Report, path: str) -> int:
             bad += bool(msgs)
         elif "state" in d:
             io = run_fake(d["state"])
+            probe_variant()
             mo = Driver().batch([fake_line(d["state"])])[0]
             okk = cmp_step(mo, io)
             print("replay:", "model and implementation agree now" if okk else f"model={mo} impl={io}")
